@@ -228,13 +228,16 @@ def process_custom(custom: ct.CustomSelectors | None) -> dict[str, str | ct.Sele
     """Process custom."""
 
     custom_selectors = {}
+    names = set()
     if custom is not None:
         for key, value in custom.items():
             name = util.lower(key)
             if RE_CUSTOM.match(name) is None:
                 raise SelectorSyntaxError(f"The name '{name}' is not a valid custom pseudo-class name")
-            if name in custom_selectors:
+            # Two keys that differ only in case are refused; compare the names as given, not with the (decoded) registered keys
+            if name in names:
                 raise KeyError(f"The custom selector '{name}' has already been registered")
+            names.add(name)
             custom_selectors[util.lower(css_unescape(name))] = value
     return custom_selectors
 
